@@ -13,3 +13,8 @@ META["trusted"] = list(META["trusted"]) + [
 ]
 for n, hf, fs in rp.GADF_UNITS_RG + [u for u in rp.READ_UNITS if "scan" in u[0] or "iter_records" in u[0]]:
     register(Unit(P, n, hf, functions=fs, replay=rp._replay_gadf))
+for n, hf, fs in rp.REFRESH_UNITS:
+    register(Unit(P, n, hf, functions=fs, replay=rp._replay_refresh))
+from contracts import commitpath as _cp
+for kind in ("file-ops", "metadata-only"):
+    register(Unit(P, f"ATOMIC-VIS/Transaction.commit-{kind}", _cp.h_tx_commit(kind, False), functions=[f"{_cp.TX}:Transaction.commit"], replay=_cp._replay_tx))
